@@ -43,6 +43,41 @@ type callScenario struct {
 	Prog  []callOp    `json:"prog"`
 	Msend int         `json:"msend"`
 	Mrecv int         `json:"mrecv"`
+	// Big: request messages of 4 MiB, more than the HTTP/2 flow-control window: a Send blocks until the handler
+	// reads it or finishes
+	Big bool `json:"big"`
+}
+
+// rejector is a handler-side interceptor: for a server-streaming scenario with hrecv = 0 it fails the call before
+// the framework has read the request message (an authentication interceptor, say).
+type rejector struct{}
+
+func (rejector) WrapUnary(next connect.UnaryFunc) connect.UnaryFunc { return next }
+func (rejector) WrapStreamingClient(next connect.StreamingClientFunc) connect.StreamingClientFunc {
+	return next
+}
+func (rejector) WrapStreamingHandler(next connect.StreamingHandlerFunc) connect.StreamingHandlerFunc {
+	return func(ctx context.Context, conn connect.StreamingHandlerConn) error {
+		if v, ok := callStates.Load(conn.RequestHeader().Get("X-Verif-Sid")); ok {
+			st := v.(*callState)
+			if st.sc.Kind == "server" && st.sc.H.Hrecv == 0 {
+				st.entered.Store(true)
+				defer close(st.exited)
+				st.ctxErr = ctx.Err() != nil
+				return connect.NewError(handlerErrCode, errors.New("handler-err"))
+			}
+		}
+		return next(ctx, conn)
+	}
+}
+
+func callPayload(s *callScenario, n int) []byte {
+	if !s.Big {
+		return []byte{byte(n)}
+	}
+	b := make([]byte, 4<<20)
+	b[0] = byte(n)
+	return b
 }
 
 func init() { families["call"] = runCall }
@@ -344,7 +379,7 @@ func runCall(raw json.RawMessage, seed int64, rec *Rec) {
 	}
 	rec.Add(E("reset", "tid", s.Tid, "sc", map[string]any{"msend": s.Msend, "mrecv": s.Mrecv, "hrecv": s.H.Hrecv,
 		"hsend": hsend, "hdrain": s.H.Hdrain, "hret": s.H.Hret, "watch": true},
-		"scn", map[string]any{"proto": s.Proto, "prog": s.Prog, "h": s.H, "kind": s.Kind, "http": s.HTTP}))
+		"scn", map[string]any{"proto": s.Proto, "prog": s.Prog, "h": s.H, "kind": s.Kind, "http": s.HTTP, "big": s.Big}))
 
 	var closed atomic.Int64
 	srv := callServer
@@ -393,9 +428,9 @@ func runCall(raw json.RawMessage, seed int64, rec *Rec) {
 			case "send":
 				nsent++
 				if cstream != nil {
-					_ = cstream.Send(&BV{Value: []byte{byte(nsent)}})
+					_ = cstream.Send(&BV{Value: callPayload(&s, nsent)})
 				} else {
-					_ = bidi.Send(&BV{Value: []byte{byte(nsent)}})
+					_ = bidi.Send(&BV{Value: callPayload(&s, nsent)})
 				}
 			case "closereq":
 				_ = bidi.CloseRequest()
@@ -413,12 +448,15 @@ func runCall(raw json.RawMessage, seed int64, rec *Rec) {
 					_ = bidi.CloseResponse()
 				}
 			case "css": // CallServerStream: Send + CloseRequest inside the library
-				req := connect.NewRequest(&BV{Value: []byte{1}})
+				req := connect.NewRequest(&BV{Value: callPayload(&s, 1)})
 				req.Header().Set("X-Verif-Sid", sid)
-				sstream, _ = client.CallServerStream(lctx, req)
+				var err error
+				sstream, err = client.CallServerStream(lctx, req)
+				rec.Add(E("api", "op", "css", "ok", err == nil, "code", codeOf(err)))
 			case "car": // CloseAndReceive: CloseRequest + Receive (+ Receive) + CloseResponse inside the library
 				didCloseResp = true
-				_, _ = cstream.CloseAndReceive()
+				_, err := cstream.CloseAndReceive()
+				rec.Add(E("api", "op", "car", "ok", err == nil, "code", codeOf(err)))
 			}
 		}
 		pendingCancel := ""
